@@ -407,6 +407,18 @@ fn do_spawn(plan: &Plan, spec: &SpawnSpec, si: usize, pool: &Pool, boot: &[Optio
     };
     match res {
         Ok(p) => {
+            // ---- C05: a standard descriptor the parent runs without stays closed (the library's own
+            // pipes and handles live above 2)
+            if !mt {
+                let after = parent_table();
+                for fd in 0..3 {
+                    if !table_before.contains_key(&fd) {
+                        if let Some(d) = after.get(&fd) {
+                            violate("parent_std_touched", "parent_std_touched/closed_descriptor_open_after_spawn".into(), format!("{}: descriptor {} was closed in the parent before the spawn and is open after it ({})", ctx, fd, desc_kind_name(*d)));
+                        }
+                    }
+                }
+            }
             // ---- C07: a handle only if the program image was started, known at return
             let started = child_pid.and_then(|pid| sim().k.all_procs().find(|c| c.pid == pid && c.kind == PKind::Child(spawn_idx))).map(|c| c.exec.is_some()).unwrap_or(false);
             if !started {
@@ -1775,6 +1787,10 @@ pub fn generate(prop: &str, rng: &mut Rng, plan: &mut Plan, index: u64) {
                     spec.argv[0] = base.into_bytes();
                 }
                 spec.via_exec = rng.chance(1, 3);
+                // a process group of its own changes nothing about the signal state
+                if !spec.via_exec && rng.chance(1, 4) {
+                    spec.setpgid = true;
+                }
                 sp.spawns.push(spec);
             }
         }
